@@ -33,20 +33,29 @@
 (*                    input and the current one delivered in ONE buffer)   *)
 (*    KeepState       Decode's result depends on the previous call         *)
 (*                    -> reverse-order pass, h.Pairwise, reused receivers  *)
+(*    SharedScratch   an encoder assembles its result in ONE package-level *)
+(*                    area (CBegin) and copies it out (CEnd): two          *)
+(*                    goroutines in the call at the same time read each    *)
+(*                    other's bytes -> par.pure / vlib.parallel_callers    *)
+(*                    (8 goroutines, race-detector build, results compared *)
+(*                    with the sequential reference)                       *)
 (***************************************************************************)
 EXTENDS Naturals, FiniteSets, TLC
 
 CONSTANTS Vals,            \* abstract contents / values (Enc and Dec are the identity on them: only identity of storage matters)
           NBuf,            \* caller-owned buffers 1..NBuf; library-owned buffers are NBuf+1 .. NBuf+MaxAlloc
           MaxAlloc,        \* bound on library allocations
-          PooledOutput, AliasInput, CacheByAddress, KeepState   \* deviations (all FALSE = the specification)
+          PooledOutput, AliasInput, CacheByAddress, KeepState, SharedScratch   \* deviations (all FALSE = the specification)
 
 VARIABLES heap,      \* buffer id -> content
           nalloc,    \* library allocations so far
           results,   \* handed-out results: [kind, ref, val]: ref = 0 (a copy) or the buffer the result reads from; val = what it read when handed out
           cache,     \* CacheByAddress: <<buffer id, value>> of the last Decode, or <<0, 0>>
-          last       \* KeepState: value of the previous Decode (or 0)
-vars == <<heap, nalloc, results, cache, last>>
+          last,      \* KeepState: value of the previous Decode (or 0)
+          pc,        \* goroutine -> the value it is encoding right now (None = not inside a call)
+          area       \* goroutine -> content of the assembly area it uses (SharedScratch: both use area[1])
+vars == <<heap, nalloc, results, cache, last, pc, area>>
+Gor == {1, 2}
 
 Caller == 1..NBuf
 Scratch == NBuf + 1
@@ -55,6 +64,7 @@ ASSUME None \notin Vals
 
 Init == /\ heap \in [1..(NBuf + 1 + MaxAlloc) -> {CHOOSE v \in Vals : TRUE}]
         /\ nalloc = 0 /\ results = {} /\ cache = <<0, None>> /\ last = None
+        /\ pc = [g \in Gor |-> None] /\ area = [g \in Gor |-> None]
 
 (* what a handed-out result reads NOW *)
 Reads(r) == IF r.ref = 0 THEN r.val ELSE heap[r.ref]
@@ -69,7 +79,7 @@ Encode(x) ==
               /\ heap' = [heap EXCEPT ![Scratch + 1 + nalloc] = x]
               /\ results' = results \cup {[kind |-> "enc", ref |-> Scratch + 1 + nalloc, val |-> x]}
               /\ nalloc' = nalloc + 1
-    /\ UNCHANGED <<cache, last>>
+    /\ UNCHANGED <<cache, last, pc, area>>
 
 Decode(b) ==
     LET content == heap[b]
@@ -79,16 +89,29 @@ Decode(b) ==
     IN /\ results' = results \cup {[kind |-> "dec", ref |-> IF AliasInput THEN b ELSE 0, val |-> v, want |-> content]}
        /\ cache' = IF CacheByAddress /\ cache[1] # b THEN <<b, content>> ELSE cache
        /\ last' = content
-       /\ UNCHANGED <<heap, nalloc>>
+       /\ UNCHANGED <<heap, nalloc, pc, area>>
 
-Overwrite(b, v) == /\ heap' = [heap EXCEPT ![b] = v] /\ UNCHANGED <<nalloc, results, cache, last>>
+Overwrite(b, v) == /\ heap' = [heap EXCEPT ![b] = v] /\ UNCHANGED <<nalloc, results, cache, last, pc, area>>
+
+(* an encoder seen as two steps by two goroutines: assemble, then copy out *)
+AreaOf(g) == IF SharedScratch THEN 1 ELSE g
+CBegin(g, x) == /\ pc[g] = None /\ pc' = [pc EXCEPT ![g] = x] /\ area' = [area EXCEPT ![AreaOf(g)] = x]
+                /\ UNCHANGED <<heap, nalloc, results, cache, last>>
+CEnd(g) == /\ pc[g] # None
+           /\ results' = results \cup {[kind |-> "cenc", ref |-> 0, val |-> area[AreaOf(g)], want |-> pc[g]]}
+           /\ pc' = [pc EXCEPT ![g] = None]
+           /\ UNCHANGED <<heap, nalloc, cache, last, area>>
 
 Next == \/ \E x \in Vals : Encode(x)
         \/ \E b \in Caller : Decode(b)
         \/ \E b \in Caller, v \in Vals : Overwrite(b, v)
+        \/ \E g \in Gor, x \in Vals : CBegin(g, x)
+        \/ \E g \in Gor : CEnd(g)
 Spec == Init /\ [][Next]_vars
 
 (* a decoded value is the decoding of the content the buffer had at the call *)
 DecodeIsAFunctionOfContent == \A r \in results : r.kind = "dec" => r.val = r.want
-Inv == ResultsAreValues /\ DecodeIsAFunctionOfContent
+(* what a goroutine gets is the encoding of ITS argument, whatever the other goroutine is doing *)
+ConcurrentCallsAreIsolated == \A r \in results : r.kind = "cenc" => r.val = r.want
+Inv == ResultsAreValues /\ DecodeIsAFunctionOfContent /\ ConcurrentCallsAreIsolated
 =============================================================================
